@@ -217,7 +217,7 @@ def check_bisect(rep, run: Run, D: Blocks):
                 and n.value.value.id == n.targets[0].id and isinstance(n.value.slice, ast.Slice):
             cand = n.targets[0].id
     if cand is None:
-        if _check_lohi(rep, run, D, fi, w):
+        if _check_lohi(rep, run, D, fi, w, view):
             return
         rep.unmodelled("BN-BISECT", fi, w, "search loop neither narrows a candidate array by slicing nor is a recognised "
                                            "lo/hi binary search (different search style)")
@@ -313,7 +313,7 @@ def check_bisect(rep, run: Run, D: Blocks):
             break
 
 
-def _check_lohi(rep, run, D, fi, w) -> bool:
+def _check_lohi(rep, run, D, fi, w, view=None) -> bool:
     """lo/hi binary search for the smallest feasible candidate: while lo < hi: mid = (lo+hi)//2;
     feasible → hi = mid; infeasible → lo = mid+1; answer = candidates[lo] (inclusive upper end, last candidate feasible)"""
     t = w.test
@@ -326,7 +326,10 @@ def _check_lohi(rep, run, D, fi, w) -> bool:
     if not mids:
         return False
     mid = mids[0].targets[0].id
-    branch = [n for n in w.body if isinstance(n, ast.If)]
+    def _moves_bound(body):
+        return any(isinstance(st, ast.Assign) and any(isinstance(t, ast.Name) and t.id in (lo, hi) for t in st.targets)
+                   for st in body)
+    branch = [n for n in w.body if isinstance(n, ast.If) and (_moves_bound(n.body) or _moves_bound(n.orelse))]
     if len(branch) != 1:
         return False
     br = branch[0]
@@ -366,7 +369,7 @@ def _check_lohi(rep, run, D, fi, w) -> bool:
     else:
         rep.unmodelled("BN-BISECT", fi, br, "unrecognised update of the lower bound")
     # initial bounds and the answer
-    f = fi.node
+    f = view if view is not None else fi.node
     inits = {}
     for st in ast.walk(f):
         if isinstance(st, ast.Assign) and st.lineno < w.lineno:
@@ -404,24 +407,63 @@ def _check_lohi(rep, run, D, fi, w) -> bool:
                   and isinstance(st.value, ast.Subscript) and isinstance(st.value.slice, ast.Name) and st.value.slice.id == mid
                   and isinstance(st.value.value, ast.Name)]
         feas_body = br.body if hi in upd(br.body) else br.orelse
-        if not probes:
+        inline = sorted({n.value.id for n in ast.walk(w) if isinstance(n, ast.Subscript) and isinstance(n.value, ast.Name)
+                         and isinstance(n.slice, ast.Name) and n.slice.id == mid})
+        if not probes and len(inline) != 1:
             rep.unmodelled("BN-BISECT", fi, w, "probe element of the candidate array not found")
         else:
-            dname, cand = probes[0].targets[0].id, probes[0].value.value.id
-            accepted = [st for st in feas_body if isinstance(st, ast.Assign) and isinstance(st.value, ast.Name)
-                        and st.value.id == dname and isinstance(st.targets[0], ast.Name)]
+            if probes:
+                dname, cand = probes[0].targets[0].id, probes[0].value.value.id
+            else:
+                dname, cand = None, inline[0]   # the probe is read in place as cand[mid]
+            probe_txt = f"{cand}[{mid}]"
+            flat = []
+            for st in feas_body:   # `a, b = x, y` counts as two assignments
+                if isinstance(st, ast.Assign) and isinstance(st.targets[0], ast.Tuple) and isinstance(st.value, ast.Tuple) \
+                        and len(st.targets[0].elts) == len(st.value.elts):
+                    for tt, vv in zip(st.targets[0].elts, st.value.elts):
+                        a2 = ast.Assign(targets=[tt], value=vv)
+                        ast.copy_location(a2, st)
+                        a2.end_lineno = st.end_lineno
+                        flat.append(a2)
+                else:
+                    flat.append(st)
+            accepted = [st for st in flat if isinstance(st, ast.Assign) and isinstance(st.targets[0], ast.Name)
+                        and ((isinstance(st.value, ast.Name) and st.value.id == dname)
+                             or ast.unparse(st.value) == probe_txt)]
             if not accepted:
                 rep.refuted("BN-BISECT", fi, br, "the feasible arm never records the probed value as the new distance")
             else:
                 res_name = accepted[0].targets[0].id
-                others = [n for n in ast.walk(w) if isinstance(n, ast.Assign) and isinstance(n.targets[0], ast.Name)
-                          and n.targets[0].id == res_name and n not in accepted]
+                def _binds(st, name):
+                    if not isinstance(st, ast.Assign):
+                        return None
+                    t0 = st.targets[0]
+                    if isinstance(t0, ast.Name) and t0.id == name:
+                        return st.value
+                    if isinstance(t0, ast.Tuple) and isinstance(st.value, ast.Tuple) and len(t0.elts) == len(st.value.elts):
+                        for tt, vv in zip(t0.elts, st.value.elts):
+                            if isinstance(tt, ast.Name) and tt.id == name:
+                                return vv
+                    return None
+                others = [n for n in ast.walk(w) if _binds(n, res_name) is not None
+                          and not (isinstance(_binds(n, res_name), ast.Name) and _binds(n, res_name).id == dname)
+                          and ast.unparse(_binds(n, res_name)) != probe_txt]
+                feas_nodes = {id(x) for st in feas_body for x in ast.walk(st)}
+                others += [n for n in ast.walk(w) if _binds(n, res_name) is not None and id(n) not in feas_nodes
+                           and n not in others]
                 if others:
                     rep.refuted("BN-BISECT", fi, others[0], "the distance is also overwritten outside the feasible arm")
                 else:
                     rep.discharged("BN-BISECT", fi, accepted[0], f"`{res_name}` is only ever replaced by a feasible candidate")
-                init = [st for st in f.body if isinstance(st, ast.Assign) and isinstance(st.targets[0], ast.Name)
-                        and st.targets[0].id == res_name]
+                init = []
+                for st in f.body:
+                    v0 = _binds(st, res_name)
+                    if v0 is not None:
+                        a2 = ast.Assign(targets=[ast.Name(id=res_name, ctx=ast.Store())], value=v0)
+                        ast.copy_location(a2, st)
+                        a2.end_lineno = st.end_lineno
+                        init.append(a2)
                 if init and isinstance(init[0].value, ast.Subscript) and isinstance(init[0].value.value, ast.Name) \
                         and init[0].value.value.id == cand and ast.unparse(init[0].value.slice) == "-1":
                     rep.discharged("BN-BISECT", fi, init[0], "search starts from the largest candidate (always feasible: +inf "
@@ -436,8 +478,10 @@ def _check_lohi(rep, run, D, fi, w) -> bool:
                                            f"{ast.unparse(hi0) if hi0 is not None else '?'} not recognised")
     if cand is not None:
         seen_c = False
+        import re as _re2
+        cand0 = _re2.sub(r"^_i\d+_", "", cand)  # the name inside the helper the search was inlined from
         for ev in run.events("assign"):
-            if ev["name"] != cand:
+            if ev["name"] not in (cand, cand0):
                 continue
             seen_c = True
             v = ev["value"]
